@@ -387,13 +387,21 @@ def inline_new_helpers(tree: ast.Module, rel: str, baseline: dict) -> int:
     for _round in range(3):
         inv_now = {}
         helpers: dict[str, tuple[ast.FunctionDef, str]] = {}
+        ambiguous: set[str] = set()
+        known_bare = {q_.split(".")[-1] for q_ in known}
 
         def collect(body, prefix, kind):
             for st in body:
                 if isinstance(st, (ast.FunctionDef, ast.AsyncFunctionDef)):
                     q = prefix + st.name
-                    if q not in known and _inlinable(st):
-                        helpers[st.name] = (st, kind)
+                    # a helper is looked up by its bare name at the call sites: a special method, or a name that the pinned tree (or another new
+                    # definition) also uses elsewhere, is never treated as one
+                    if q not in known and _inlinable(st) and not (st.name.startswith("__") and st.name.endswith("__")) and st.name not in known_bare:
+                        if st.name in helpers or st.name in ambiguous:
+                            ambiguous.add(st.name)
+                            helpers.pop(st.name, None)
+                        else:
+                            helpers[st.name] = (st, kind)
                     collect(st.body, q + ".<locals>.", "nested")
                 elif isinstance(st, ast.ClassDef):
                     collect(st.body, prefix + st.name + ".", "method")
@@ -441,7 +449,8 @@ def inline_new_helpers(tree: ast.Module, rel: str, baseline: dict) -> int:
                 prologue, hbody = inst
                 changed += 1
                 if ctx == "yieldfrom":
-                    out.extend(prologue + hbody)
+                    # a generator helper: its (tail-position) returns end the helper, not the caller
+                    out.extend(prologue + (_replace_returns(hbody, lambda r: []) or [ast.copy_location(ast.Pass(), st)]))
                 elif ctx == "expr":
                     out.extend(prologue + _replace_returns(hbody, lambda r: [ast.copy_location(ast.Expr(value=r.value), r)] if r.value is not None else []))
                 elif ctx == "assign":
@@ -462,20 +471,21 @@ def inline_new_helpers(tree: ast.Module, rel: str, baseline: dict) -> int:
             break
         # helper definitions that are no longer referenced anywhere are dropped (they would otherwise look like orphan functions)
         referenced = {n.id for n in ast.walk(tree) if isinstance(n, ast.Name)} | {n.attr for n in ast.walk(tree) if isinstance(n, ast.Attribute)}
-        _drop_defs(tree, {name for name in helpers if name not in referenced})
+        _drop_defs(tree, {id(helpers[name][0]) for name in helpers if name not in referenced})
     _cleanup(tree)
     ast.fix_missing_locations(tree)
     return count
 
 
-def _drop_defs(tree: ast.AST, names: set[str]) -> None:
+def _drop_defs(tree: ast.AST, names: set[int]) -> None:
+    """Remove the given function definitions (by node identity: never another definition that happens to share the name)."""
     if not names:
         return
     for n in ast.walk(tree):
         for fld in ("body", "orelse", "finalbody"):
             lst = getattr(n, fld, None)
             if isinstance(lst, list) and lst and isinstance(lst[0], ast.stmt):
-                new = [x for x in lst if not (isinstance(x, (ast.FunctionDef, ast.AsyncFunctionDef)) and x.name in names)]
+                new = [x for x in lst if not (isinstance(x, (ast.FunctionDef, ast.AsyncFunctionDef)) and id(x) in names)]
                 if len(new) != len(lst):
                     setattr(n, fld, new or [ast.Pass(lineno=getattr(lst[0], "lineno", 1), col_offset=0)])
 
